@@ -1146,6 +1146,323 @@ def extra_c04_more(ctx, pf):
     return n
 
 
+
+# ================================================================== round-5 lessons
+# (1) every container a `for` loop accepts as the list of terms (tuples, iterators, generators are consumed ONCE by the library);
+# (2) boundary data given in broadcastable form (a column / a row for data that do not vary along one axis of the face);
+# (3) positive data far below machine epsilon (1e-18 .. 1e-120) and far above 1: `abs(v) < eps` is not a zero test;
+# (4) the zero guard must clamp tiny NON-ZERO denominators too (differences of 5e-324 next to differences of 1);
+# (5) shape / arity checks on grids with more than 100 000 cells per axis (np.allclose on integers has a relative tolerance);
+# (6) unit changes on well-resolved smooth profiles (cell-to-cell differences 1e-3 of the amplitude), several hundred cells per axis.
+def term_containers(ctx, pf, prop):
+    """solvePDE with the same terms given as list / tuple / iterator / generator / map / dict view / deque"""
+    import collections
+    n = 0
+    rng = random.Random(f"{prop}cont-{ctx.seed}")
+    for cname in gen.CLASSES:
+        fs = gen.mesh_case(rng, cname, nmax=3, nmin=2)
+        mesh = gen.build_mesh(pf, cname, fs)
+        d = gen.DIM[cname]
+        dims = tuple(int(k) for k in mesh.dims)
+        L = {"cls": cname, "faces": [list(map(float, f)) for f in fs]}
+        try:
+            with np.errstate(all="ignore"):
+                c = 2.5
+                D = mkface(pf, mesh, [ival(rng, s, 1, 3) + 0.5 for s in face_shapes(mesh)])
+                beta = pf.CellVariable(mesh, ival(rng, dims, 1, 3) + 0.5)
+                if prop == "c06":      # beta*phi = gamma with the uniform solution c, plus diffusion of it
+                    gam = pf.CellVariable(mesh, c * np.asarray(beta.value)); p0 = np.full(dims, c)
+                else:
+                    gam = pf.CellVariable(mesh, ival(rng, dims, 0, 4) + 0.25); p0 = ival(rng, dims, 0, 4) + 0.5
+                def terms(v):
+                    Mt, Rt = pf.transientTerm(v, 0.5, 1.0)
+                    return [Mt, Rt, -pf.diffusionTerm(D), pf.linearSourceTerm(beta), pf.constantSourceTerm(gam)]
+                def solve(wrap):
+                    v = pf.CellVariable(mesh, p0)
+                    for _ in range(2):
+                        pf.solvePDE(v, wrap(terms(v)))
+                    return np.array(v._value)
+                ref = solve(list)
+                forms = [("tuple", tuple), ("iter(list)", iter), ("generator", lambda t: (x for x in t)), ("map", lambda t: map(lambda x: x, t)),
+                         ("dict.values()", lambda t: dict(enumerate(t)).values()), ("collections.deque", collections.deque), ("reversed(list)", lambda t: reversed(t[::-1]))]
+                for tag, wrap in forms:
+                    got = solve(wrap); n += 1
+                    if relsc(got, ref) > 1e-12:
+                        what = {"c06": f"a uniform field c = {c} with beta*c = gamma does not stay uniform (max deviation {float(np.max(np.abs(got[interior_slices(d)] - c))):.3g})",
+                                "c02": "the stored numbers are not the solution of the documented equation (some terms were dropped)",
+                                "c04": "the stored values do not solve the assembled system"}[prop]
+                        ctx.violation(f"{prop}:{cname}:terms-as-{tag.split('(')[0].split('.')[-1]}", f"{cname}: solvePDE with the terms given as a {tag} instead of a list: {what} (rel {relsc(got, ref):.3g} from the list form)", dict(L, container=tag)); break
+        except Exception as ex:
+            ctx.violation(f"{prop}:{cname}:terms-container-raise", f"{cname}: solvePDE with the terms in another iterable raised {type(ex).__name__}: {ex}", L)
+    return n
+
+
+def bc_broadcast_c08(ctx, pf):
+    """boundary data that do not vary along one axis of the face, given as a column / a row / without the unit axis, through the
+    coefficient attributes and through the utility methods: the face must hold the broadcast data (and the solution on the 3D grid equal
+    the one obtained from full arrays)"""
+    n = 0
+    rng = random.Random(f"c08bcast-{ctx.seed}")
+    for cname in gen.CLASSES:
+        d = gen.DIM[cname]
+        if d == 1:
+            continue
+        fs = gen.mesh_case(rng, cname, nmax=4, nmin=3)
+        mesh = gen.build_mesh(pf, cname, fs)
+        L0 = {"cls": cname, "faces": [list(map(float, f)) for f in fs]}
+        D = pf.FaceVariable(mesh, 1.0)
+        for ax in range(d):
+            if gen.AXKIND[cname][ax] == "rad" and False:
+                continue
+            for side in SIDES[ax]:
+                S = tuple(np.asarray(getattr(pf.BoundaryConditions(mesh), side).a).shape)       # natural shape of the face data
+                free = [a for a in range(len(S)) if S[a] > 1]
+                forms = [("full array", S), ("one element: shape (1,)", (1,))]
+                if len(S) == 2:
+                    for a in free:
+                        sh = list(S); sh[a] = 1
+                        forms.append((f"constant along face axis {a}: shape {tuple(sh)}", tuple(sh)))
+                    forms.append((f"constant along face axis 0: shape {(S[1],)}", (S[1],)))
+                for tag, sh in forms:
+                    val = ival(rng, sh, 1, 9) + 0.5
+                    want = np.broadcast_to(val, S)
+                    L = dict(L0, side=side, form=tag, value=val.tolist())
+                    calls = [("c = value", lambda f: setattr(f, "c", val), (None, None, want)),
+                             ("fixedValue(value)", lambda f: f.fixedValue(val), (0.0, 1.0, want)),
+                             ("fixedGradient(value)", lambda f: f.fixedGradient(val), (1.0, 0.0, want)),
+                             ("fixedGradient(value, scale_coeffs=2.0)", lambda f: f.fixedGradient(val, 2.0), (2.0, 0.0, 2.0 * want)),
+                             ("newtonCooling(1.5, 2.0, value)", lambda f: f.newtonCooling(1.5, 2.0, val), (1.5, 2.0, 2.0 * want)),
+                             ("newtonCooling(value, 2.0, 3.0)", lambda f: f.newtonCooling(val, 2.0, 3.0), (want, 2.0, 6.0))]
+                    for cn, call, (wa, wb, wc) in calls:
+                        try:
+                            B = pf.BoundaryConditions(mesh); f = getattr(B, side)
+                            call(f); n += 1
+                            bad = [k for k, w, g in (("a", wa, f.a), ("b", wb, f.b), ("c", wc, f.c)) if w is not None and relsc(np.asarray(g), np.broadcast_to(np.asarray(w, dtype=float), np.asarray(g).shape)) > 1e-14]
+                            if bad:
+                                ctx.violation(f"c08:{cname}:bc-broadcast:{cn.split('(')[0].split(' ')[0]}", f"{cname}: {side}.{cn} with boundary data {tag} does not store the data constant along that axis (coefficient {bad} differs from the broadcast array): the solution is not constant along the redundant coordinate",
+                                              dict(L, call=cn)); raise StopIteration
+                        except StopIteration:
+                            break
+                        except Exception as ex:
+                            ctx.violation(f"c08:{cname}:bc-broadcast-raise", f"{cname}: {side}.{cn} with data {tag} raised {type(ex).__name__}: {ex}", dict(L, call=cn)); break
+                # one solve with Dirichlet data in column form against the full form
+                try:
+                    if len(S) == 2 and free:
+                        sh = list(S); sh[free[-1]] = 1
+                        val = ival(rng, tuple(sh), 1, 9) + 0.5
+                        def solve(v):
+                            B = pf.BoundaryConditions(mesh); getattr(B, side).fixedValue(v)
+                            x = pf.CellVariable(mesh, 0.0, B)
+                            pf.solvePDE(x, [-pf.diffusionTerm(D), pf.linearSourceTerm(pf.CellVariable(mesh, 1.0))])
+                            return np.array(x._value)
+                        with np.errstate(all="ignore"):
+                            a = solve(val); b = solve(np.broadcast_to(val, S).copy())
+                        n += 1
+                        if relsc(a, b) > 1e-12:
+                            ctx.violation(f"c08:{cname}:bc-broadcast-solve", f"{cname}: Dirichlet data on `{side}` given as an array of shape {tuple(sh)} (constant along one axis) give another solution than the same data as a full array (rel {relsc(a, b):.3g})", dict(L0, side=side, value=val.tolist()))
+                except Exception as ex:
+                    ctx.violation(f"c08:{cname}:bc-broadcast-solve-raise", f"{cname}: solve with broadcast boundary data raised {type(ex).__name__}: {ex}", dict(L0, side=side))
+    return n
+
+
+def tiny_values_c11(ctx, pf):
+    """positive data of magnitude 1e-18 .. 1e-120 and 1e+120, with exact zeros: the means are homogeneous of degree one, lie between
+    the neighbours and only EXACT zeros give the zero convention"""
+    n = 0
+    rng = random.Random(f"c11tiny-{ctx.seed}")
+    for cname in gen.CLASSES:
+        fs = gen.mesh_case(rng, cname, nmax=3, nmin=2)
+        mesh = gen.build_mesh(pf, cname, fs)
+        d = gen.DIM[cname]
+        base = ival(rng, full_shape(mesh), 1, 6) + 0.5
+        zpos = rng.randrange(base.size)
+        uarr = [ival(rng, s, -1, 1) for s in face_shapes(mesh)]
+        def means(arr):
+            v = pf.CellVariable(mesh, arr)
+            out = {k: getattr(pf, k)(v) for k in ("linearMean", "arithmeticMean", "geometricMean", "harmonicMean")}
+            out["upwindMean"] = pf.upwindMean(v, mkface(pf, mesh, uarr))
+            return {k: [np.asarray(c, dtype=float) for c in (f._xvalue, f._yvalue, f._zvalue)[:d]] for k, f in out.items()}
+        for zeros in (False, True):
+            b0 = base.copy()
+            if zeros:
+                b0.flat[zpos] = 0.0
+            try:
+                with np.errstate(all="ignore"):
+                    ref = means(b0)
+                for scale in (1e-18, 3e-17, 1e-60, 1e-120, 1e+120):
+                    L = {"cls": cname, "faces": [list(map(float, f)) for f in fs], "phi_with_ghosts": (b0 * scale).tolist(), "scale": scale}
+                    with np.errstate(all="ignore"):
+                        got = means(b0 * scale)
+                    for k in ref:
+                        n += 1
+                        dev = max(relsc(g / scale, r) for g, r in zip(got[k], ref[k]))
+                        if dev > 1e-12:
+                            # name a face: lower / upper neighbour and the value
+                            ctx.violation(f"c11:{cname}:{k}:magnitude", f"{cname}: {k} of positive data of magnitude {scale:g}{' (one exact zero)' if zeros else ''} is not {scale:g} times the mean of the same data of magnitude 1 (rel {dev:.3g}): the face value is not a mean of the two adjacent cell values",
+                                          dict(L, mean=k)); break
+            except Exception as ex:
+                ctx.violation(f"c11:{cname}:magnitude-raise", f"{cname}: means of tiny / huge data raised {type(ex).__name__}: {ex}", {"cls": cname})
+    return n
+
+
+def fsign_clamp_c13(ctx, pf):
+    """the zero guard clamps tiny non-zero denominators to +-eps1, and the TVD correction stays finite on fields that mix differences of
+    order one with non-zero differences down to the smallest denormal"""
+    n = 0
+    adv = pf.advection
+    import inspect
+    eps1 = inspect.signature(adv._fsign).parameters["eps1"].default
+    pts = []
+    for s in (1.0, -1.0):
+        for k in (5e-324, 1e-310, 2.3e-308, 1e-300, 1e-100, 1e-20, eps1 / 2, float(np.nextafter(eps1, 0))):
+            pts.append(s * k)
+    with np.errstate(all="ignore"):
+        out = adv._fsign(np.array(pts))
+        out0 = [float(adv._fsign(np.float64(x))) for x in pts]
+    for x, y, y0 in zip(pts, out, out0):
+        n += 1
+        if not (abs(y) >= eps1 * (1 - 1e-12)) or np.sign(y) != np.sign(x) or y0 != y:
+            ctx.violation("c13:fsign-clamp", f"_fsign({x!r}) = {y!r} (scalar call: {y0!r}): a non-zero value below the threshold {eps1:g} must become {np.sign(x) * eps1!r}, otherwise the gradient ratio overflows", {"x": x, "eps1": eps1}); break
+    names = ["CHARM", "HCUS", "HQUICK", "ospre", "VanLeer", "VanAlbada1", "VanAlbada2", "MinMod", "SUPERBEE", "Osher", "Sweby", "smart", "Koren", "MUSCL", "QUICK", "UMIST"]
+    profiles = [("steps of 1 next to steps of 5e-324", [1.0, 0.0, 5e-324, 1e-323, 1.0, 2.0, 2.0, 1.0]),
+                ("steps of 1e10 next to steps of 1e-310", [1e10, 0.0, 1e-310, 3e-310, -1e10, 0.0, 1e-310, 0.0]),
+                ("exp(-90 i): decays from 1 through the denormals to 0", [float(np.exp(-90.0 * i)) for i in range(12)]),
+                ("1e-300 * small integers next to 1e+10", [0.0, 1e-300, 3e-300, 1e10, 1e10, 2e-300, 0.0, -1e10])]
+    for cname in gen.CLASSES:
+        d = gen.DIM[cname]
+        for pname, prof in profiles:
+            N0 = len(prof) - 2
+            Ns = [N0, 2, 2][:d]
+            mesh = getattr(pf, cname)(*Ns, *([float(k) for k in Ns]))
+            shape = full_shape(mesh)
+            for axis in range(d):
+                if axis > 0:
+                    # the same profile along another axis
+                    Ns2 = [2] * d; Ns2[axis] = N0
+                    mesh = getattr(pf, cname)(*Ns2, *([float(k) if gen.AXKIND[cname][a] not in ("ang", "pol") else 1.0 for a, k in enumerate(Ns2)]))
+                    shape = full_shape(mesh)
+                sh = [1] * d; sh[axis] = -1
+                for sgn in (1.0, -1.0):
+                    arr = np.broadcast_to((sgn * np.array(prof)).reshape(sh), shape).copy()
+                    phi = pf.CellVariable(mesh, arr)
+                    for usign in (1.0, -1.0):
+                        u = pf.FaceVariable(mesh, usign)
+                        for nm in names:
+                            with np.errstate(all="ignore"):
+                                r = pf.convectionTVDupwindRHSTerm(u, phi, pf.fluxLimiter(nm))
+                            n += 1
+                            if not np.all(np.isfinite(r)):
+                                ctx.violation(f"c13:tvd-tiny-differences:{nm}", f"TVD correction with '{nm}' on {cname} (profile along axis {axis}) is not finite for a finite field with {pname}",
+                                              {"cls": cname, "limiter": nm, "profile": (sgn * np.array(prof)).tolist(), "axis": axis, "u": usign}); break
+    return n
+
+
+def huge_shape_c16(ctx, pf):
+    """shape families of initial values on grids with 150 000 cells along one axis"""
+    n = 0
+    N = 150_000
+    cases = [("Grid1D", (N,)), ("CylindricalGrid1D", (N,)), ("SphericalGrid1D", (N,)), ("Grid2D", (N, 2)), ("Grid2D", (2, N)), ("CylindricalGrid2D", (N, 1)), ("PolarGrid2D", (1, N))]
+    for cname, Ns in cases:
+        d = len(Ns)
+        try:
+            mesh = getattr(pf, cname)(*Ns, *([1.0] * d))
+        except Exception as ex:
+            ctx.violation(f"c16:{cname}:huge-grid", f"{cname}{Ns}: documented constructor form raised {type(ex).__name__}: {ex}", {"cls": cname, "N": list(Ns)}); continue
+        good = [tuple(Ns), tuple(k + 2 for k in Ns)]
+        bad = []
+        for a in range(d):
+            for off in (-1, 1, 3, 10, 1000, -1000):
+                for b in good:
+                    t = list(b); t[a] += off
+                    if tuple(t) not in good and all(k > 0 for k in t):
+                        bad.append(tuple(t))
+        bad.append(tuple(2 * k for k in Ns)); bad.append(tuple(k + 1 for k in Ns))
+        for shp in good:
+            try:
+                v = pf.CellVariable(mesh, np.zeros(shp)); n += 1
+                if tuple(v._value.shape) != good[1]:
+                    ctx.violation(f"c16:{cname}:huge-shape-valid", f"{cname}{Ns}: initial array of shape {shp} stored with shape {tuple(v._value.shape)}", {"cls": cname, "N": list(Ns), "shape": list(shp)})
+            except Exception as ex:
+                ctx.violation(f"c16:{cname}:huge-shape-valid", f"{cname}{Ns}: valid initial array of shape {shp} raised {type(ex).__name__}", {"cls": cname, "N": list(Ns), "shape": list(shp)})
+        for shp in sorted(set(bad)):
+            try:
+                pf.CellVariable(mesh, np.zeros(shp)); got = "accepted"
+            except ValueError:
+                got = "ValueError"
+            except Exception as ex:
+                got = type(ex).__name__
+            n += 1
+            if got != "ValueError":
+                ctx.violation(f"c16:{cname}:huge-shape", f"{cname}{Ns}: an initial array of shape {shp} fits neither the grid nor the grid with ghost cells, documented: ValueError, got: {got}", {"cls": cname, "N": list(Ns), "shape": list(shp)}); break
+    return n
+
+
+def fine_units_c17(ctx, pf):
+    """unit changes on WELL-RESOLVED smooth profiles (a few hundred cells along one axis, cell-to-cell differences ~1e-3 of the amplitude):
+    the TVD correction and an upwind + TVD + diffusion step rescale by exactly K"""
+    n = 0
+    rng = random.Random(f"c17fine-{ctx.seed}")
+    UNITS = [(1e-6, 1.0, 1e-6), (1e-6, 1e3, 1e-3), (1e-5, 1e-3, 1e-6), (1e3, 1.0, 1e3), (1e6, 1e-6, 1e6), (1e-4, 1e2, 1e4), (1e4, 1.0, 1e-4)]
+    LIMS = ["SUPERBEE", "VanLeer", "MinMod", "Koren"]
+    for ci, cname in enumerate(gen.CLASSES):
+        d = gen.DIM[cname]
+        for axis in range(d):
+            NF = 240 if d == 1 else (120 if d == 2 else 60)
+            Ns = [2] * d; Ns[axis] = NF
+            kinds = gen.AXKIND[cname]
+            fs = []
+            for a in range(d):
+                N = Ns[a]
+                w = np.array([1.0 + 0.4 * np.sin(2.0 * np.pi * (i + 0.5) / N) for i in range(N)])
+                x = np.concatenate([[0.0], np.cumsum(w)]); x = x / x[-1]
+                if kinds[a] == "rad": x = 0.5 + x
+                elif kinds[a] == "ang": x = x * 1.5
+                elif kinds[a] == "pol": x = 0.4 + x * 1.2
+                fs.append(x)
+            lenlike = [kinds[a] in ("len", "rad") for a in range(d)]
+            def build(L):
+                return gen.build_mesh(pf, cname, [f * (L if lenlike[a] else 1.0) for a, f in enumerate(fs)])
+            m0 = build(1.0)
+            s = (np.arange(NF + 2) - 0.5) / NF
+            sh = [1] * d; sh[axis] = -1
+            prof = 1.0 + 0.5 * np.exp(-((s - 0.45) / 0.18) ** 2) + 0.1 * np.sin(2 * np.pi * s)
+            p0 = np.broadcast_to(prof.reshape(sh), full_shape(m0)).copy()
+            for usign in (1.0, -1.0):
+                lim = LIMS[(ci + axis + (usign < 0)) % len(LIMS)]
+                # every velocity component is a length per time (u_theta too)
+                def run(L, T, K):
+                    mesh = build(L)
+                    uv = []
+                    for a, shp in enumerate(face_shapes(mesh)):
+                        uv.append(np.full(shp, (usign * (0.7 if a == axis else 0.0)) * (L / T)))
+                    u = mkface(pf, mesh, uv)
+                    phi = pf.CellVariable(mesh, p0 * K)
+                    FL = pf.fluxLimiter(lim)
+                    r = np.asarray(pf.convectionTVDupwindRHSTerm(u, phi, FL)) * T / K
+                    Dv = pf.FaceVariable(mesh, 1e-4 * L * L / T)
+                    x = pf.CellVariable(mesh, p0 * K)
+                    for _ in range(2):
+                        rhs = pf.convectionTVDupwindRHSTerm(u, x, FL)
+                        pf.solvePDE(x, [pf.transientTerm(x, 0.002 * T, 1.0), pf.convectionUpwindTerm(u), rhs, -pf.diffusionTerm(Dv)])
+                    return r, np.array(x._value) / K
+                try:
+                    with np.errstate(all="ignore"):
+                        r0, x0 = run(1.0, 1.0, 1.0)
+                        for (L, T, K) in UNITS:
+                            r1, x1 = run(L, T, K)
+                            n += 2
+                            Lb = {"cls": cname, "cells": Ns, "axis": axis, "limiter": lim, "u_sign": usign, "L": L, "T": T, "K": K}
+                            if relsc(r1, r0) > 1e-9:
+                                ctx.violation(f"c17:{cname}:fine-tvd", f"{cname} ({NF} cells along axis {axis}, smooth profile): the TVD correction ('{lim}') in units L={L:g}, T={T:g}, K={K:g} is not K/T times the one in the original units (rel {relsc(r1, r0):.3g})", Lb); raise StopIteration
+                            if relsc(x1, x0) > 1e-9:
+                                ctx.violation(f"c17:{cname}:fine-solve", f"{cname} ({NF} cells along axis {axis}, smooth profile): two upwind + TVD + diffusion steps in units L={L:g}, T={T:g}, K={K:g} do not give K times the solution in the original units (rel {relsc(x1, x0):.3g})", Lb); raise StopIteration
+                except StopIteration:
+                    pass
+                except Exception as ex:
+                    ctx.violation(f"c17:{cname}:fine-raise", f"{cname}: fine-grid unit change raised {type(ex).__name__}: {ex}", {"cls": cname, "axis": axis})
+    return n
+
+
 extra_c01 = _chain(extra_c01, big_c01, lambda ctx, pf: coef_dtype_c05(ctx, pf, "c01"))
 extra_c03 = _chain(extra_c03, tiny_edits_c03)
 extra_c04 = _chain(extra_c04, extra_c04_more, big_c04)
@@ -1156,3 +1473,11 @@ extra_c10 = _chain(extra_c10, scale_c10)
 extra_c12 = _chain(extra_c12, alpha_repr_c12)
 extra_c14 = _chain(extra_c14, operand_kinds_c14)
 extra_c15 = _chain(extra_c15, results_alias_c15)
+extra_c02 = lambda ctx, pf: term_containers(ctx, pf, "c02")
+extra_c04 = _chain(extra_c04, lambda ctx, pf: term_containers(ctx, pf, "c04"))
+extra_c06 = _chain(extra_c06, lambda ctx, pf: term_containers(ctx, pf, "c06"))
+extra_c08 = _chain(extra_c08, bc_broadcast_c08)
+extra_c11 = _chain(extra_c11, tiny_values_c11)
+extra_c13 = _chain(extra_c13, fsign_clamp_c13)
+extra_c16 = _chain(extra_c16, huge_shape_c16)
+extra_c17 = _chain(extra_c17, fine_units_c17)
